@@ -8,9 +8,8 @@ Open Scope Z_scope.
 Definition parsed_good (s : st) : Prop :=
   forall idx cl tok sc, nth_error (parsed s) idx = Some (PRefresh cl tok (Some sc)) ->
     exists t g, tget tok s = Some t /\ nth_error (grants s) (t_grant t) = Some g /\ subset sc (g_scope g) = true.
-(* what was authorised for a grant: the request's scopes filtered by the client's allowed scopes *)
-Definition grants_good (c : cfg) (s : st) : Prop :=
-  forall gi g, nth_error (grants s) gi = Some g -> g_scope g = filter_scopes c (g_client g) (g_areq_scope g).
+(* grants_good (what was authorised for a grant: the request's scopes filtered by the client's allowed scopes) is
+   defined in C05a_proofs *)
 Definition inv (c : cfg) (s : st) : Prop := toks_good s /\ parsed_good s /\ grants_good c s.
 
 Lemma toks_good_grants gs gs' ts :
@@ -26,7 +25,7 @@ Lemma parsed_good_mono s s' : parsed_good s -> ext s s' -> gext s s' -> parsed s
 Proof.
   intros H He Hg Hp idx cl tok sc Hn. rewrite Hp in Hn. destruct (H _ _ _ _ Hn) as (t&g&Ht&Hgr&Hs).
   destruct (He _ _ Ht) as (t'&Ht'&L). destruct (Hg _ _ Hgr) as (g'&Hg'&Lg).
-  exists t', g'. destruct L as (L1&_). destruct Lg as (_&_&Lg3&_). rewrite L1, Lg3. auto.
+  exists t', g'. destruct L as (L1&_). destruct Lg as (_&Lg3). rewrite L1, (Lg3 I). auto.
 Qed.
 Lemma parsed_good_push s p : parsed_good s -> (forall cl tok sc, p <> PRefresh cl tok (Some sc)) -> parsed_good (push_parsed s p).
 Proof.
@@ -42,12 +41,12 @@ Proof.
   intros H Hg Hl gi g' Hn. assert (gi < length (grants s))%nat as Hlt by (rewrite <- Hl; apply nth_error_Some; congruence).
   destruct (nth_error (grants s) gi) as [g|] eqn:E; [|apply nth_error_None in E; lia].
   destruct (Hg _ _ E) as (g2&Hg2&L). rewrite Hn in Hg2. inversion Hg2; subst g2.
-  destruct L as (_&L2&L3&L4&_). rewrite L2, L3, L4. eapply H; eauto.
+  destruct L as ((_&L2&L4&_)&L3). rewrite L2, (L3 I), L4. eapply H; eauto.
 Qed.
 
 Lemma gext_scope s s' : gext s s' ->
   forall gi g, nth_error (grants s) gi = Some g -> exists g', nth_error (grants s') gi = Some g' /\ g_scope g' = g_scope g.
-Proof. intros H gi g Hg. destruct (H _ _ Hg) as (g'&H1&(_&_&H3&_)). eauto. Qed.
+Proof. intros H gi g Hg. destruct (H _ _ Hg) as (g'&H1&(_&H3)). eauto. Qed.
 
 Lemma resolve_as_tok c k r s id g t : resolve_as c k r s = RTok id g t -> r = TRef id /\ find_tok id s = Some (g, t).
 Proof.
@@ -57,32 +56,74 @@ Proof.
     intros H; inversion H; subst; auto.
 Qed.
 
+(* the authorization endpoint: a code minted under a grant carries the grant's scope *)
+Lemma inv_mint_code c s gi s2 id :
+  inv c s -> mint s gi Code None None (Some 1) (Some (c_code_mints c)) (c_code_exp c) = Ok (s2, id) -> inv c s2.
+Proof.
+  intros (Ht&Hp&Hg) Hm. split; [|split].
+  - eapply good_mint; eauto. intros g0 x _ Hx; discriminate Hx.
+  - pose proof Hm as Hm'. apply mint_ok in Hm' as (_&_&Hgr&Hpa&_).
+    eapply parsed_good_mono; [exact Hp|eapply mint_ext; eauto|now apply gext_same|exact Hpa].
+  - apply mint_ok in Hm as (_&_&Hgr&_). intros gi0 g0 H0. rewrite Hgr in H0. eapply Hg; eauto.
+Qed.
+(* a new grant whose scope is what its request authorises *)
+Lemma inv_add_grant c s g :
+  inv c s -> g_scope g = filter_scopes c (g_client g) (g_areq_scope g) ->
+  inv c (mkSt (now s) (grants s ++ [g]) (toks s) (parsed s)).
+Proof.
+  intros (Ht&Hp&Hg) Hsc. split; [|split].
+  - unfold toks_good; cbn. eapply toks_good_grants; [exact Ht|]. intros gi g0 H0. exists g0. split; auto. now apply nth_app_old.
+  - intros idx cl tok sc Hn. destruct (Hp _ _ _ _ Hn) as (t&g0&A&B&C). exists t, g0. repeat split; auto. cbn. now apply nth_app_old.
+  - intros gi g0 H0. cbn in H0. destruct (Nat.lt_ge_cases gi (length (grants s))) as [Hl|Hl].
+    + rewrite nth_error_app1 in H0 by auto. eapply Hg; eauto.
+    + rewrite nth_error_app2 in H0 by auto. destruct (gi - length (grants s))%nat as [|[|k]]; cbn in H0; try discriminate.
+      inversion H0; subst g0. exact Hsc.
+Qed.
+Lemma inv_authorize_at c s u cl sc rd v : inv c s -> inv c (fst (do_authorize_at c s u cl sc rd v)).
+Proof.
+  intros Hi. unfold do_authorize_at.
+  set (g := mkGrant u cl false (now s + c_grant_exp c) match sc with [] => [] | _ :: _ => filter_scopes c cl sc end sc rd v false).
+  assert (H1 : inv c (mkSt (now s) (grants s ++ [g]) (toks s) (parsed s))).
+  { apply inv_add_grant; auto. unfold g; cbn. destruct sc; reflexivity. }
+  match goal with |- context [mint ?a ?b ?c0 ?d ?e ?f ?g ?h] => destruct (mint a b c0 d e f g h) as [[s2 id]| |] eqn:Hm end;
+    cbn [fst]; auto.
+  eapply inv_mint_code; eauto.
+Qed.
+(* the cookie path keeps a grant: authorised again with the request it was made for *)
+Lemma inv_regrant c s prev g sc rd fresh :
+  inv c s -> nth_error (grants s) prev = Some g -> same_request g sc rd fresh = true ->
+  inv c (upd_grant prev (regrant c (now s) sc) s).
+Proof.
+  intros (Ht&Hp&Hg) Hn Hs. apply same_request_eq in Hs as [Hs _].
+  assert (Hsc : reuse_scope c g sc = g_scope g) by (apply reuse_scope_same; auto; eapply Hg; eauto).
+  assert (Hk : gext s (upd_grant prev (regrant c (now s) sc) s)).
+  { intros k g0 H. unfold upd_grant; cbn. destruct (Nat.eq_dec prev k) as [->|N].
+    - rewrite nth_upd_same, H. cbn. eexists; split; [reflexivity|]. rewrite Hn in H. inversion H; subst g0.
+      split; [unfold g_lew, regrant; cbn; repeat split; auto|]. intros _. exact Hsc.
+    - rewrite nth_upd_other by auto. exists g0. split; [assumption|apply g_le_refl]. }
+  split; [|split].
+  - unfold toks_good, upd_grant; cbn. eapply toks_good_grants; [exact Ht|]. apply (gext_scope _ _ Hk).
+  - eapply parsed_good_mono; [exact Hp|now apply ext_same_toks|exact Hk|reflexivity].
+  - eapply grants_good_gext; [exact Hg|exact Hk|]. unfold upd_grant; cbn. apply len_upd.
+Qed.
+Lemma inv_authorize_cookie c s prev u cl sc rd fresh : inv c s -> inv c (fst (do_authorize_cookie c s prev u cl sc rd fresh)).
+Proof.
+  intros Hi. unfold do_authorize_cookie. destruct (nth_error (grants s) prev) as [g|] eqn:Eg; [|now apply inv_authorize_at].
+  destruct (g_removed g || negb (str_eqb (g_client g) cl)); [now apply inv_authorize_at|].
+  destruct (negb (grant_active (now s) g)); [exact Hi|].
+  destruct (negb (now s <? g_valid_until g)); [exact Hi|].
+  destruct (same_request g sc rd fresh) eqn:Es; [|now apply inv_authorize_at].
+  pose proof (inv_regrant c s prev g sc rd fresh Hi Eg Es) as H1.
+  match goal with |- context [mint ?a ?b ?c0 ?d ?e ?f ?g ?h] => destruct (mint a b c0 d e f g h) as [[s2 id]| |] eqn:Hm end;
+    cbn [fst]; auto.
+  eapply inv_mint_code; eauto.
+Qed.
+
 Theorem inv_step c s o : inv c s -> inv c (fst (step c s o)).
 Proof.
-  intros (Ht&Hp&Hg). pose proof (step_ext c s o) as He. pose proof (step_gext c s o) as Hge.
+  intros Hi. pose proof Hi as (Ht&Hp&Hg). pose proof (step_ext c s o) as He. pose proof (step_gext c s o Hg) as Hge.
   destruct o; cbn [step] in *.
-  - (* Authorize *)
-    unfold do_authorize in *.
-    set (g := mkGrant user client false (now s + c_grant_exp c)
-                      match scope with [] => [] | _ :: _ => filter_scopes c client scope end scope (redirect_of client)
-                      (now s + c_authn_valid c) false) in *.
-    set (s1 := mkSt (now s) (grants s ++ [g]) (toks s) (parsed s)) in *.
-    assert (Ht1 : toks_good s1).
-    { unfold toks_good, s1; cbn. eapply toks_good_grants; [exact Ht|]. intros gi g0 H0. exists g0. split; auto. now apply nth_app_old. }
-    assert (Hg1 : grants_good c s1).
-    { intros gi g0 H0. unfold s1 in H0; cbn in H0. destruct (Nat.lt_ge_cases gi (length (grants s))) as [Hl|Hl].
-      - rewrite nth_error_app1 in H0 by auto. eapply Hg; eauto.
-      - rewrite nth_error_app2 in H0 by auto. destruct (gi - length (grants s))%nat as [|[|k]]; cbn in H0; try discriminate.
-        inversion H0; subst g0. unfold g; cbn. destruct scope; reflexivity. }
-    assert (Hp1 : parsed_good s1).
-    { intros idx cl tok sc Hn. destruct (Hp _ _ _ _ Hn) as (t&g0&A&B&C). exists t, g0. repeat split; auto. unfold s1; cbn. now apply nth_app_old. }
-    destruct (mint s1 (length (grants s)) Code None None (Some 1) (Some (c_code_mints c)) (c_code_exp c)) as [[s2 id]| |] eqn:Hm;
-      cbn [fst] in *; try (split; [|split]; assumption).
-    split; [|split].
-    + eapply good_mint; eauto. intros g0 x _ Hx; discriminate Hx.
-    + pose proof Hm as Hm'. apply mint_ok in Hm' as (_&_&Hgr&Hpa&_).
-      eapply parsed_good_mono; [exact Hp1|eapply mint_ext; eauto|now apply gext_same|exact Hpa].
-    + apply mint_ok in Hm as (_&_&Hgr&_). intros gi g0 H0. rewrite Hgr in H0. eapply Hg1; eauto.
+  - (* Authorize *) now apply inv_authorize_at.
   - (* TokenParse *)
     assert (Hl : length (grants (fst (do_token_parse c s client code redirect))) = length (grants s))
       by (unfold do_token_parse; repeat dm; reflexivity).
@@ -177,6 +218,7 @@ Proof.
     rewrite Forall_forall in *. intros t Hin. apply in_map_iff in Hin as (t0&<-&Hin0).
     destruct (Hgs _ Hin0) as (g&G1&G2&G3). destruct (in_user g0 s (t_grant t0)); exists g; auto.
   - (* Tick *) repeat split; assumption.
+  - (* AuthorizeCookie *) now apply inv_authorize_cookie.
 Qed.
 
 (* ---- every reachable state ---- *)
@@ -197,17 +239,72 @@ Qed.
 (* NO ESCALATION: in every reachable state, every scope value of every token was asked for in the authorization
    request of its grant AND is allowed for that grant's client — however the token was obtained (code exchange,
    refresh with or without a scope parameter, chains of refreshes of any length). *)
-Theorem no_escalation c ops k t g x :
-  let s := fst (run c init ops) in
+Lemma no_escalation_from c s0 ops k t g x :
+  inv c s0 ->
+  let s := fst (run c s0 ops) in
   tget k s = Some t -> nth_error (grants s) (t_grant t) = Some g -> In x (t_scope t) ->
   In x (g_areq_scope g) /\ In x (c_allowed c (g_client g)).
 Proof.
-  intros s Ht Hg Hx. destruct (inv_run c ops init (inv_init c)) as (I1&_&I3). fold s in I1, I3.
+  intros Hi s Ht Hg Hx. destruct (inv_run c ops s0 Hi) as (I1&_&I3). fold s in I1, I3.
   destruct (good_nth _ _ _ I1 Ht) as (g'&G1&G2&_). rewrite Hg in G1. inversion G1; subst g'.
   unfold subset in G2. rewrite forallb_forall in G2. apply G2 in Hx. apply str_in_In in Hx.
   rewrite (I3 _ _ Hg) in Hx. split.
   - unfold filter_scopes in Hx. apply filter_In in Hx as [Hx _]. exact Hx.
   - eapply filter_allowed; eauto.
+Qed.
+Theorem no_escalation c ops k t g x :
+  let s := fst (run c init ops) in
+  tget k s = Some t -> nth_error (grants s) (t_grant t) = Some g -> In x (t_scope t) ->
+  In x (g_areq_scope g) /\ In x (c_allowed c (g_client g)).
+Proof. apply no_escalation_from. apply inv_init. Qed.
+
+(* ---- authorizing again within a browser session ---- *)
+(* the grant that holds the code of an authorization response answers THIS request: its client, its scope *)
+Lemma authorize_at_grant c s u cl sc rd v s1 code scope :
+  do_authorize_at c s u cl sc rd v = (s1, OAuthz code scope) ->
+  exists tc g, tget code s1 = Some tc /\ nth_error (grants s1) (t_grant tc) = Some g /\ g_areq_scope g = sc /\ g_client g = cl.
+Proof.
+  unfold do_authorize_at.
+  match goal with |- context [mint ?a ?b ?c0 ?d ?e ?f ?g ?h] => destruct (mint a b c0 d e f g h) as [[s2 id]| |] eqn:Hm end;
+    intros H; inversion H; subst; clear H.
+  pose proof Hm as Hm'. apply mint_ok in Hm' as (_&_&Hgr&_).
+  apply mint_new in Hm as (tn&Ht&Hg&_). exists tn. eexists. split; [exact Ht|].
+  rewrite Hgr, Hg. cbn [grants]. rewrite nth_error_app2 by lia. rewrite Nat.sub_diag. cbn. auto.
+Qed.
+Lemma authorize_cookie_grant c s prev u cl sc rd fresh s1 code scope :
+  do_authorize_cookie c s prev u cl sc rd fresh = (s1, OAuthz code scope) ->
+  exists tc g, tget code s1 = Some tc /\ nth_error (grants s1) (t_grant tc) = Some g /\ g_areq_scope g = sc /\ g_client g = cl.
+Proof.
+  unfold do_authorize_cookie. destruct (nth_error (grants s) prev) as [g|] eqn:Eg; [|apply authorize_at_grant].
+  destruct (g_removed g || negb (str_eqb (g_client g) cl)) eqn:Ec; [apply authorize_at_grant|].
+  destruct (negb (grant_active (now s) g)); [discriminate|].
+  destruct (negb (now s <? g_valid_until g)); [discriminate|].
+  destruct (same_request g sc rd fresh) eqn:Es; [|apply authorize_at_grant].
+  match goal with |- context [mint ?a ?b ?c0 ?d ?e ?f ?g ?h] => destruct (mint a b c0 d e f g h) as [[s2 id]| |] eqn:Hm end;
+    intros H; inversion H; subst; clear H.
+  pose proof Hm as Hm'. apply mint_ok in Hm' as (_&_&Hgr&_).
+  apply mint_new in Hm as (tn&Ht&Hg&_). exists tn. eexists. split; [exact Ht|].
+  rewrite Hgr, Hg. unfold upd_grant; cbn [grants]. rewrite nth_upd_same, Eg. cbn. split; [reflexivity|].
+  apply same_request_eq in Es as [Hs _]. apply orb_false_iff in Ec as [_ Ec]. apply negb_false_iff, str_eqb_eq in Ec. auto.
+Qed.
+(* BOUNDED BY ITS OWN REQUEST: after an authorization request that came with the session cookie of an earlier one -
+   whatever that earlier one asked for, wider or narrower - every token that is ever found in the grant holding the new
+   code (the code itself, what is exchanged for it, every refresh down the chain) carries only scope values THIS
+   request asked for and its client is allowed. *)
+Theorem cookie_authorization_bounded c pre prev u cl sc rd fresh s1 code scope post tc k t x :
+  step c (fst (run c init pre)) (AuthorizeCookie prev u cl sc rd fresh) = (s1, OAuthz code scope) ->
+  tget code s1 = Some tc ->
+  tget k (fst (run c s1 post)) = Some t -> t_grant t = t_grant tc -> In x (t_scope t) ->
+  In x sc /\ In x (c_allowed c cl).
+Proof.
+  intros Hs Hc Ht Hg Hx. cbn [step] in Hs.
+  assert (Hi : inv c s1).
+  { pose proof (inv_step c _ (AuthorizeCookie prev u cl sc rd fresh) (inv_run c pre init (inv_init c))) as H.
+    cbn [step] in H. now rewrite Hs in H. }
+  apply authorize_cookie_grant in Hs as (tc'&g&Hc'&Hn&Ha&Hcl). rewrite Hc in Hc'. inversion Hc'; subst tc'.
+  destruct (run_gext c post s1 _ g Hn) as (g'&Hn'&(_&G2&G3&_)).
+  rewrite <- Hg in Hn'. destruct (no_escalation_from c s1 post k t g' x Hi Ht Hn' Hx) as (A&B).
+  rewrite G3, Ha in A. rewrite G2, Hcl in B. auto.
 Qed.
 
 (* a refresh can narrow but never widen beyond the granted set, also when its scope parameter is honoured *)
